@@ -376,8 +376,54 @@ func c08Check(c *c08Case, res *core.CaseResult) {
 	}
 }
 
+// c08ManyStatements: one module with 6000 statements whose arguments are concatenations of three short pieces
+// (18000 pieces in all): each argument is a value of its own, whatever was decoded before it.
+func c08ManyStatements(res *core.CaseResult) {
+	var b strings.Builder
+	b.WriteString("module m {\n  namespace \"urn:m\";\n  prefix m;\n")
+	const n = 6000
+	want := make([]string, n)
+	for i := 0; i < n; i++ {
+		fmt.Fprintf(&b, "  x:s \"a%d\" + ' b' +\n      \"\\tc\n       d\";\n", i)
+		want[i] = fmt.Sprintf("a%d b\tc\nd", i)
+	}
+	b.WriteString("}\n")
+	text := b.String()
+	var tree *parse.Tree
+	var err error
+	pan, msg, _ := core.Guard(func() { tree, err = parse.Parse("c08-many.yang", text, nil) })
+	res.Ev("many_statement_modules", 1)
+	short := core.Trunc(text, 400)
+	if pan {
+		res.Fail("C08/parse-panic", short, msg)
+		return
+	}
+	if err != nil {
+		res.Fail("C08/valid-argument-rejected/many-statements", short, err.Error())
+		return
+	}
+	i := 0
+	for _, ch := range tree.Root.Children() {
+		if ch.Statement() != "x:s" {
+			continue
+		}
+		if i < n && ch.Argument().String() != want[i] {
+			res.Fail("C08/decoded-argument/many-statements", short, fmt.Sprintf("statement %d: RFC 6020 value %q, parser gives %q", i, want[i], ch.Argument().String()))
+			return
+		}
+		i++
+	}
+	if i != n {
+		res.Fail("C08/statement-missing", short, fmt.Sprintf("%d of %d x:s statements in the tree", i, n))
+	}
+	res.Ev("arguments_checked", n)
+}
+
 func (p *c08) Run(tier string, seed int64, idx int) core.CaseResult {
 	var res core.CaseResult
+	if idx == 0 {
+		c08ManyStatements(&res)
+	}
 	c := p.gen(tier, seed, idx)
 	c08Check(c, &res)
 	if idx%5003 == 0 {
